@@ -49,157 +49,7 @@ func runC12(c *Ctx) {
 	ruleTransactionPairing(c, "C12.1")
 
 	// ---- C12.2
-	c.Rule("C12.2", "completion belongs to the remover: each call of (*Transaction).WriteResult — followed through forwarding helpers to the function that looks the transaction up — has as receiver result #0 of a trMap.Find(key) made earlier on the path, with trMap.Delete of the same key (or of that transaction's own Key) between the Find and the completion, Client.mutexTrMap held at the Find and at the Delete and no Unlock of it between them", 2)
-	{
-		isTxOp := func(in ssa.Instruction) bool {
-			ci, ok := in.(ssa.CallInstruction)
-			if !ok {
-				return false
-			}
-			switch ci.Common().StaticCallee() {
-			case find, del, writeRes:
-				return true
-			}
-			if lo := w.lockOpOf(ci.Common()); lo != nil && lo.class == lockTr {
-				return true
-			}
-			return false
-		}
-		mayTx := w.mayContain(isTxOp)
-		mayFind := w.mayContain(func(in ssa.Instruction) bool { return staticCallee(in) == find })
-		type site struct {
-			root *ssa.Function
-			at   ssa.CallInstruction
-		}
-		var sites []site
-		seenSite := map[ssa.CallInstruction]bool{}
-		for _, lc := range w.liftCalls(writeRes, mayFind, 4) {
-			if !seenSite[lc.at] {
-				seenSite[lc.at] = true
-				sites = append(sites, site{lc.fn, lc.at})
-			}
-		}
-		type verdict struct {
-			n   int
-			bad string
-		}
-		verdicts := map[ssa.CallInstruction]*verdict{}
-		type st struct {
-			find  *ssa.Call
-			delOK bool
-			unl   ssa.Instruction
-		}
-		doneRoot := map[*ssa.Function]bool{}
-		exhausted := false
-		for _, s0 := range sites {
-			root := s0.root
-			if doneRoot[root] {
-				continue
-			}
-			doneRoot[root] = true
-			isFindResult := func(v ssa.Value, fc *ssa.Call, env *pathEnv) bool {
-				if fc == nil {
-					return false
-				}
-				v = env.resolve(w.resolveLoad(v))
-				ex, ok := v.(*ssa.Extract)
-				if ok && ex.Tuple == fc && ex.Index == 0 {
-					return true
-				}
-				// re-validated: the path learned that the table's entry under the key IS this
-				// transaction (cur, ok := Find(tr.Key); ok && cur == tr)
-				return knownSameAsFind(w, env, fc, v) == 1
-			}
-			cfg := &ipCfg[st]{w: w}
-			cfg.Inline = func(_ ssa.CallInstruction, h *ssa.Function) bool {
-				return w.IsMod[h] && h != find && h != del && h != writeRes && mayTx(h)
-			}
-			cfg.Return = func(*ssa.Return, st, *pathEnv) {}
-			cfg.Step = func(in ssa.Instruction, s st, env *pathEnv, stack []ssa.CallInstruction) st {
-				ci, ok := in.(ssa.CallInstruction)
-				if !ok {
-					return s
-				}
-				if _, isGo := in.(*ssa.Go); isGo {
-					return s
-				}
-				switch ci.Common().StaticCallee() {
-				case find:
-					if call, isCall := in.(*ssa.Call); isCall {
-						s = st{find: call}
-					}
-					return s
-				case del:
-					if s.find != nil {
-						k := ci.Common().Args[1]
-						fk := s.find.Call.Args[1]
-						same := w.sameKey(k, fk) || env.resolve(w.resolveLoad(k)) == env.resolve(w.resolveLoad(fk))
-						if !same {
-							// the transaction's own key: tr.Key with tr the Find result (C12.4: Insert keys equal Transaction.Key)
-							if base, f, isL := fieldLoad(w.resolveLoad(k)); isL && nm(f) == "Key" && isFindResult(base, s.find, env) {
-								same = true
-							}
-						}
-						if same {
-							s.delOK = true
-						}
-					}
-					return s
-				case writeRes:
-					top := ci
-					if len(stack) > 0 {
-						top = stack[0]
-					}
-					v := verdicts[top]
-					if v == nil {
-						v = &verdict{}
-						verdicts[top] = v
-					}
-					v.n++
-					switch {
-					case !isFindResult(ci.Common().Args[0], s.find, env):
-						v.bad = "the transaction completed here was not obtained from trMap.Find in this function: " + w.desc(ci.Common().Args[0])
-					case !s.delOK:
-						v.bad = "the result is written without this function having removed the transaction from the table first: another completer (timer, response, Close) may complete it again"
-					default:
-						heldF := holds(li.mustAt(s.find), lockTr, true)
-						if s.unl != nil || !heldF {
-							unlocked := ""
-							if s.unl != nil {
-								unlocked = w.instrPos(s.unl)
-							}
-							v.bad = fmt.Sprintf("find→delete is not atomic under Client.mutexTrMap (held at Find=%v, unlocked between at %q): a response, the timer and Close can each complete the same transaction (double completion or send on a closed channel)", heldF, unlocked)
-						}
-					}
-					return s
-				}
-				if lo := w.lockOpOf(ci.Common()); lo != nil && lo.class == lockTr && lo.op == "Unlock" && s.find != nil && !s.delOK {
-					s.unl = in
-				}
-				return s
-			}
-			explorePaths(cfg, root, st{})
-			if cfg.Exhausted {
-				exhausted = true
-			}
-		}
-		for _, s0 := range sites {
-			fn := s0.root
-			c.Anchor("C12.2", fname(fn)+"@"+anchorOrd(c, "C12.2", fname(fn)))
-			pos := w.instrPos(s0.at)
-			v := verdicts[s0.at]
-			switch {
-			case exhausted:
-				c.Bad("C12.2", fname(fn), "WriteResult", pos, "undecided: path exploration exceeded its budget")
-			case v == nil:
-				c.Bad("C12.2", fname(fn), "WriteResult", pos, "undecided: no explored path of "+fname(fn)+" reaches this completion")
-			case v.bad != "":
-				c.Bad("C12.2", fname(fn), "WriteResult", pos, v.bad)
-			default:
-				c.OK("C12.2", fname(fn), "WriteResult", pos, fmt.Sprintf("Find and Delete of the same key inside one hold of Client.mutexTrMap on each of the %d paths to the completion", v.n))
-			}
-		}
-	}
+	ruleCompletionByRemover(c, "C12.2")
 
 	// ---- C12.3
 	c.Rule("C12.3", "onRtxTimeout: every path from entry to a return (helpers inlined) is exactly one of (a) Find not ok: no Delete, no WriteResult, no StartRtxTimer; (b) Delete + WriteResult, no StartRtxTimer; (c) retransmission WriteTo + StartRtxTimer, no Delete", 1)
@@ -1409,4 +1259,166 @@ func armedUnderCallbackLock(w *World, arm *ssa.Call) bool {
 		}
 	})
 	return touches > 0 && locked
+}
+
+// ruleCompletionByRemover: C12.2 (and, as C18.fd, the same rule under the concurrency property).
+func ruleCompletionByRemover(c *Ctx, rule string) {
+	w := c.W
+	li := w.lockInfo()
+	find := w.Func("client", "TransactionMap", "Find")
+	del := w.Func("client", "TransactionMap", "Delete")
+	writeRes := w.Func("client", "Transaction", "WriteResult")
+	const lockTr = "turn.Client.mutexTrMap"
+	_, _ = li, lockTr
+	c.Rule(rule, "completion belongs to the remover: each call of (*Transaction).WriteResult — followed through forwarding helpers to the function that looks the transaction up — has as receiver result #0 of a trMap.Find(key) made earlier on the path, with trMap.Delete of the same key (or of that transaction's own Key) between the Find and the completion, Client.mutexTrMap held at the Find and at the Delete and no Unlock of it between them", 2)
+	{
+		isTxOp := func(in ssa.Instruction) bool {
+			ci, ok := in.(ssa.CallInstruction)
+			if !ok {
+				return false
+			}
+			switch ci.Common().StaticCallee() {
+			case find, del, writeRes:
+				return true
+			}
+			if lo := w.lockOpOf(ci.Common()); lo != nil && lo.class == lockTr {
+				return true
+			}
+			return false
+		}
+		mayTx := w.mayContain(isTxOp)
+		mayFind := w.mayContain(func(in ssa.Instruction) bool { return staticCallee(in) == find })
+		type site struct {
+			root *ssa.Function
+			at   ssa.CallInstruction
+		}
+		var sites []site
+		seenSite := map[ssa.CallInstruction]bool{}
+		for _, lc := range w.liftCalls(writeRes, mayFind, 4) {
+			if !seenSite[lc.at] {
+				seenSite[lc.at] = true
+				sites = append(sites, site{lc.fn, lc.at})
+			}
+		}
+		type verdict struct {
+			n   int
+			bad string
+		}
+		verdicts := map[ssa.CallInstruction]*verdict{}
+		type st struct {
+			find  *ssa.Call
+			delOK bool
+			unl   ssa.Instruction
+		}
+		doneRoot := map[*ssa.Function]bool{}
+		exhausted := false
+		for _, s0 := range sites {
+			root := s0.root
+			if doneRoot[root] {
+				continue
+			}
+			doneRoot[root] = true
+			isFindResult := func(v ssa.Value, fc *ssa.Call, env *pathEnv) bool {
+				if fc == nil {
+					return false
+				}
+				v = env.resolve(w.resolveLoad(v))
+				ex, ok := v.(*ssa.Extract)
+				if ok && ex.Tuple == fc && ex.Index == 0 {
+					return true
+				}
+				// re-validated: the path learned that the table's entry under the key IS this
+				// transaction (cur, ok := Find(tr.Key); ok && cur == tr)
+				return knownSameAsFind(w, env, fc, v) == 1
+			}
+			cfg := &ipCfg[st]{w: w}
+			cfg.Inline = func(_ ssa.CallInstruction, h *ssa.Function) bool {
+				return w.IsMod[h] && h != find && h != del && h != writeRes && mayTx(h)
+			}
+			cfg.Return = func(*ssa.Return, st, *pathEnv) {}
+			cfg.Step = func(in ssa.Instruction, s st, env *pathEnv, stack []ssa.CallInstruction) st {
+				ci, ok := in.(ssa.CallInstruction)
+				if !ok {
+					return s
+				}
+				if _, isGo := in.(*ssa.Go); isGo {
+					return s
+				}
+				switch ci.Common().StaticCallee() {
+				case find:
+					if call, isCall := in.(*ssa.Call); isCall {
+						s = st{find: call}
+					}
+					return s
+				case del:
+					if s.find != nil {
+						k := ci.Common().Args[1]
+						fk := s.find.Call.Args[1]
+						same := w.sameKey(k, fk) || env.resolve(w.resolveLoad(k)) == env.resolve(w.resolveLoad(fk))
+						if !same {
+							// the transaction's own key: tr.Key with tr the Find result (C12.4: Insert keys equal Transaction.Key)
+							if base, f, isL := fieldLoad(w.resolveLoad(k)); isL && nm(f) == "Key" && isFindResult(base, s.find, env) {
+								same = true
+							}
+						}
+						if same {
+							s.delOK = true
+						}
+					}
+					return s
+				case writeRes:
+					top := ci
+					if len(stack) > 0 {
+						top = stack[0]
+					}
+					v := verdicts[top]
+					if v == nil {
+						v = &verdict{}
+						verdicts[top] = v
+					}
+					v.n++
+					switch {
+					case !isFindResult(ci.Common().Args[0], s.find, env):
+						v.bad = "the transaction completed here was not obtained from trMap.Find in this function: " + w.desc(ci.Common().Args[0])
+					case !s.delOK:
+						v.bad = "the result is written without this function having removed the transaction from the table first: another completer (timer, response, Close) may complete it again"
+					default:
+						heldF := holds(li.mustAt(s.find), lockTr, true)
+						if s.unl != nil || !heldF {
+							unlocked := ""
+							if s.unl != nil {
+								unlocked = w.instrPos(s.unl)
+							}
+							v.bad = fmt.Sprintf("find→delete is not atomic under Client.mutexTrMap (held at Find=%v, unlocked between at %q): a response, the timer and Close can each complete the same transaction (double completion or send on a closed channel)", heldF, unlocked)
+						}
+					}
+					return s
+				}
+				if lo := w.lockOpOf(ci.Common()); lo != nil && lo.class == lockTr && lo.op == "Unlock" && s.find != nil && !s.delOK {
+					s.unl = in
+				}
+				return s
+			}
+			explorePaths(cfg, root, st{})
+			if cfg.Exhausted {
+				exhausted = true
+			}
+		}
+		for _, s0 := range sites {
+			fn := s0.root
+			c.Anchor(rule, fname(fn)+"@"+anchorOrd(c, rule, fname(fn)))
+			pos := w.instrPos(s0.at)
+			v := verdicts[s0.at]
+			switch {
+			case exhausted:
+				c.Bad(rule, fname(fn), "WriteResult", pos, "undecided: path exploration exceeded its budget")
+			case v == nil:
+				c.Bad(rule, fname(fn), "WriteResult", pos, "undecided: no explored path of "+fname(fn)+" reaches this completion")
+			case v.bad != "":
+				c.Bad(rule, fname(fn), "WriteResult", pos, v.bad)
+			default:
+				c.OK(rule, fname(fn), "WriteResult", pos, fmt.Sprintf("Find and Delete of the same key inside one hold of Client.mutexTrMap on each of the %d paths to the completion", v.n))
+			}
+		}
+	}
 }
